@@ -128,6 +128,18 @@ var caseHeader = []string{
 	"Definition pk_selftest : bool := (bytes_eqb (pk 9 (0x01020304050607 :: 0x0809ff00000000 :: nil)%uint63) (1 :: 2 :: 3 :: 4 :: 5 :: 6 :: 7 :: 8 :: 9 :: nil)%N && bytes_eqb (pk 0 nil) nil && bytes_eqb (pk 3 (0xfffe8000000000 :: nil)%uint63) (255 :: 254 :: 128 :: nil)%N)%bool.",
 }
 
+// xfindHeader: the same over the composed model C12 x C17 (C12 names live in module D,
+// C17 names in module G there)
+var xfindHeader = func() []string {
+	h := append([]string{}, caseHeader...)
+	for i, l := range h {
+		if l == "From Model Require Import C12_DHash." {
+			h[i] = "From Model Require Import Compose_C12_C17."
+		}
+	}
+	return h
+}()
+
 // coqBytes prints a byte string as a packed literal: (pk len [7-byte big-endian chunks]).
 func coqBytes(b []byte) string {
 	if len(b) == 0 {
